@@ -63,7 +63,13 @@ func (x *Exec) verifyFunction(fn *ssa.Function, c *FuncContract) (rep FuncReport
 		// verifying a closure on its own: free variables are unknown cells
 		T := fv.Type().(*types.Pointer).Elem()
 		cell := x.newCell(fv.Name(), T)
-		st.cells[cell] = x.havocVal(st, "fv_"+sanitize(fv.Name()), T)
+		if sig, ok := T.Underlying().(*types.Signature); ok {
+			// a captured function value is known to the contract by the captured variable's name
+			// (called(f), res(f), arg(f, i)), like a function-typed parameter
+			st.cells[cell] = &FuncParam{Name: fv.Name(), Sig: sig, Nil: x.declare(st, "fv_"+sanitize(fv.Name())+"_nil", "Bool")}
+		} else {
+			st.cells[cell] = x.havocVal(st, "fv_"+sanitize(fv.Name()), T)
+		}
 		bind = append(bind, &Place{Kind: pkCell, Cell: cell, Base: T, T: T})
 	}
 	env := x.newEnv(st, nil, nil)
